@@ -117,11 +117,39 @@ impl Vals {
 }
 
 /// fake "original" offsets of key-frame blobs: distinct, far outside any file we write
-struct Ctr(u32);
+/// `mode` is the aliasing pattern of the shape: 0 = every array has its own original offset, 1 = the tracks of one
+/// element share one timestamps array (same (count, offset), same bytes -- what a parse of a real file yields when
+/// several tracks point at one array), 2 = all tracks of all elements of a section share one timestamps array
+struct Ctr {
+    n: u32,
+    mode: u8,
+    pool: Option<(u32, Vec<u8>)>,
+}
 impl Ctr {
+    fn new(mode: u8) -> Self {
+        Ctr { n: 0x0100_0000, mode, pool: None }
+    }
     fn next(&mut self) -> u32 {
-        self.0 += 0x100;
-        self.0
+        self.n += 0x100;
+        self.n
+    }
+    fn begin_elem(&mut self, i: usize) {
+        if self.mode == 1 || i == 0 {
+            self.pool = None;
+        }
+    }
+    /// offset and bytes of a timestamps array: the pooled one if the pattern says so, else `fresh`
+    fn ts(&mut self, fresh: Vec<u8>) -> (u32, Vec<u8>) {
+        if self.mode > 0 {
+            if let Some(p) = &self.pool {
+                return p.clone();
+            }
+        }
+        let o = self.next();
+        if self.mode > 0 {
+            self.pool = Some((o, fresh.clone()));
+        }
+        (o, fresh)
     }
 }
 struct Blob {
@@ -134,12 +162,13 @@ struct Blob {
 }
 fn blk<T: M2Parse + Clone>(vals: Vec<T>, v: &mut Vals, c: &mut Ctr) -> (M2AnimationBlock<T>, Blob) {
     let n = vals.len() as u32;
-    let (o_r, o_t, o_v) = (c.next(), c.next(), c.next());
+    let (o_r, o_v) = (c.next(), c.next());
     let mut vb = Vec::new();
     for x in &vals {
         x.write(&mut vb).unwrap();
     }
-    let ts: Vec<u8> = (0..n).flat_map(|i| (i * 33 + (v.u() & 0xF)).to_le_bytes()).collect();
+    let fresh: Vec<u8> = (0..n).flat_map(|i| (i * 33 + (v.u() & 0xF)).to_le_bytes()).collect();
+    let (o_t, ts) = c.ts(fresh);
     let ranges = v.bytes(8);
     let track = M2AnimationTrack {
         interpolation_type: M2InterpolationType::Linear,
@@ -198,8 +227,9 @@ fn bone_track<T>(kf: bool, vn: u32, elem: usize, v: &mut Vals, c: &mut Ctr, raws
             values: M2Array::new(0, 0),
         };
     }
-    let (o_t, o_v, o_r) = (c.next(), c.next(), c.next());
-    let ts: Vec<u8> = (0..2u32).flat_map(|i| (i * 40 + (v.u() & 0xF)).to_le_bytes()).collect();
+    let (o_v, o_r) = (c.next(), c.next());
+    let fresh: Vec<u8> = (0..2u32).flat_map(|i| (i * 40 + (v.u() & 0xF)).to_le_bytes()).collect();
+    let (o_t, ts) = c.ts(fresh);
     let vals = v.bytes(2 * elem);
     let ranges = if pre { Some(v.bytes(8)) } else { None };
     raws.push(BoneAnimationRaw {
@@ -223,9 +253,12 @@ fn bone_track<T>(kf: bool, vn: u32, elem: usize, v: &mut Vals, c: &mut Ctr, raws
 fn build_model(c: &Value, seed: u64, label: &str) -> M2Model {
     let ver = version_of(gs(c, "ver"));
     let vn = gi(c, "vn") as u32;
-    let kf = gb(c, "kf");
+    // per-element presence pattern: element i of every animated section carries key frames iff bit (i mod 3) of kfmask
+    let kfmask = c.get("kfmask").and_then(|x| x.as_i64()).unwrap_or(if gb(c, "kf") { 7 } else { 0 });
+    let kfe = |i: usize| (kfmask >> (i % 3)) & 1 == 1;
+    let alias = c.get("alias").and_then(|x| x.as_i64()).unwrap_or(0) as u8;
     let mut v = Vals { rng: Rng::derive(seed, label), extreme: gs(c, "floats") == "extreme", n: 0 };
-    let mut ctr = Ctr(0x0100_0000);
+    let mut ctr = Ctr::new(alias);
     let mut m = M2Model::default();
     m.header = M2Header::new(ver);
     m.header.flags = M2ModelFlags::TILT_X | M2ModelFlags::HAS_BONES;
@@ -268,6 +301,8 @@ fn build_model(c: &Value, seed: u64, label: &str) -> M2Model {
     m.animation_lookup = (0..card(c, "animation_lookup")).map(|_| v.u16()).collect();
     let nb = card(c, "bones");
     for bi in 0..nb {
+        let kf = kfe(bi);
+        ctr.begin_elem(bi);
         let translation = bone_track(kf, vn, 12, &mut v, &mut ctr, &mut m.raw_data.bone_animation_data, bi, TrackType::Translation);
         let rotation = bone_track(kf, vn, 8, &mut v, &mut ctr, &mut m.raw_data.bone_animation_data, bi, TrackType::Rotation);
         let scale = bone_track(kf, vn, 12, &mut v, &mut ctr, &mut m.raw_data.bone_animation_data, bi, TrackType::Scale);
@@ -347,6 +382,8 @@ fn build_model(c: &Value, seed: u64, label: &str) -> M2Model {
         }
     }
     for i in 0..card(c, "particle_emitters") {
+        let kf = kfe(i);
+        ctr.begin_elem(i);
         let mut e = M2ParticleEmitter::parse(&mut Cursor::new(vec![0u8; 4096]), vn).unwrap_or_else(|e| tool_error(&format!("zero emitter: {e:?}")));
         e.id = v.u();
         e.position = v.v3();
@@ -384,6 +421,8 @@ fn build_model(c: &Value, seed: u64, label: &str) -> M2Model {
         m.particle_emitters.push(e);
     }
     for i in 0..card(c, "ribbon_emitters") {
+        let kf = kfe(i);
+        ctr.begin_elem(i);
         let rs = &mut r.ribbon_animation_data;
         use RibbonTrackType as R;
         m.ribbon_emitters.push(M2RibbonEmitter {
@@ -407,6 +446,8 @@ fn build_model(c: &Value, seed: u64, label: &str) -> M2Model {
         });
     }
     for i in 0..card(c, "texture_animations") {
+        let kf = kfe(i);
+        ctr.begin_elem(i);
         let rs = &mut r.texture_animation_data;
         use TextureTrackType as T;
         m.texture_animations.push(M2TextureAnimation {
@@ -419,6 +460,8 @@ fn build_model(c: &Value, seed: u64, label: &str) -> M2Model {
         });
     }
     for i in 0..card(c, "color_animations") {
+        let kf = kfe(i);
+        ctr.begin_elem(i);
         let rs = &mut r.color_animation_data;
         m.color_animations.push(M2ColorAnimation {
             color: ab!(kf, &mut v, &mut ctr, rs, ColorAnimationRaw, animation_index, i, ColorTrackType::Color, v.col()),
@@ -426,21 +469,26 @@ fn build_model(c: &Value, seed: u64, label: &str) -> M2Model {
         });
     }
     for i in 0..card(c, "transparency_animations") {
+        let kf = kfe(i);
+        ctr.begin_elem(i);
         let rs = &mut r.transparency_animation_data;
         m.transparency_animations.push(M2TransparencyAnimation {
             alpha: ab!(kf, &mut v, &mut ctr, rs, TransparencyAnimationRaw, animation_index, i, TransparencyTrackType::Alpha, v.f()),
         });
     }
     for i in 0..card(c, "events") {
+        let kf = kfe(i);
+        ctr.begin_elem(i);
         let mut e = M2Event::new([b'$', b'E', b'0' + i as u8, b'A' + (v.u() % 26) as u8], (v.u() % 40) as i16);
         e.data = v.u();
         e.unknown = v.u16();
         e.position = [v.f(), v.f(), v.f()];
         e.interp_type = 1;
         if kf {
-            let (o_r, o_t) = (ctr.next(), ctr.next());
+            let o_r = ctr.next();
             let nr = if vn < 264 { 1 } else { 0 };
-            let ts: Vec<u8> = (0..2u32).flat_map(|k| (k * 50 + (v.u() & 0xF)).to_le_bytes()).collect();
+            let fresh: Vec<u8> = (0..2u32).flat_map(|k| (k * 50 + (v.u() & 0xF)).to_le_bytes()).collect();
+            let (o_t, ts) = ctr.ts(fresh);
             let ranges = v.bytes(8 * nr);
             e.ranges = if nr > 0 { M2Array::new(nr as u32, o_r) } else { M2Array::new(0, 0) };
             e.times = M2Array::new(2, o_t);
@@ -455,6 +503,8 @@ fn build_model(c: &Value, seed: u64, label: &str) -> M2Model {
         m.events.push(e);
     }
     for i in 0..card(c, "attachments") {
+        let kf = kfe(i);
+        ctr.begin_elem(i);
         let rs = &mut r.attachment_animation_data;
         m.attachments.push(M2Attachment {
             id: v.u() % 60,
@@ -464,6 +514,8 @@ fn build_model(c: &Value, seed: u64, label: &str) -> M2Model {
         });
     }
     for i in 0..card(c, "cameras") {
+        let kf = kfe(i);
+        ctr.begin_elem(i);
         let rs = &mut r.camera_animation_data;
         use CameraTrackType as C;
         m.cameras.push(M2Camera {
@@ -481,6 +533,8 @@ fn build_model(c: &Value, seed: u64, label: &str) -> M2Model {
         });
     }
     for i in 0..card(c, "lights") {
+        let kf = kfe(i);
+        ctr.begin_elem(i);
         let rs = &mut r.light_animation_data;
         use LightTrackType as L;
         m.lights.push(M2Light {
@@ -665,7 +719,9 @@ fn run_m2(t: &mut Vec<Value>, c: &Value, case: &str, seed: u64) {
     let p = parse_model(&bytes);
     let (pres, pnote) = (res_of(&p), note_of(&p));
     let pm = take(p);
-    t.push(json!({"ev":"Parse","case":case,"res":pres,"note":pnote,"secs":pm.as_ref().map(model_tokens).unwrap_or(json!({}))}));
+    let hc = |m: &M2Model| (m.header.views.count as i64, m.header.num_skin_profiles.map(|x| x as i64).unwrap_or(-1));
+    t.push(json!({"ev":"Parse","case":case,"res":pres,"note":pnote,"secs":pm.as_ref().map(model_tokens).unwrap_or(json!({})),
+                  "hviews":pm.as_ref().map(|m| hc(m).0).unwrap_or(-1),"hprof":pm.as_ref().map(|m| hc(m).1).unwrap_or(-1)}));
     if let (Ok(sec), Some(pm)) = (std::env::var("C13_DUMP"), pm.as_ref()) {
         // debugging aid (never used by the check): show both renderings of one section
         let show = |m: &M2Model| -> String {
@@ -687,12 +743,16 @@ fn run_m2(t: &mut Vec<Value>, c: &Value, case: &str, seed: u64) {
         };
         eprintln!("IN : {}\nOUT: {}", elide_offsets(&show(&m)), elide_offsets(&show(pm)));
     }
-    if let Some(pm) = pm {
+    if let Some(pm) = pm.as_ref() {
         let rw = write_model(&pm);
         let (rres, rnote) = (res_of(&rw), note_of(&rw));
         let rb = take(rw).unwrap_or_default();
         t.push(json!({"ev":"Rewrite","case":case,"res":rres,"note":rnote,"len":rb.len(),"tok":tok(&rb)}));
     }
+    // conversions start from the object a parse of the written file yields (its header carries the counts of the file,
+    // e.g. views.count); the built object only if the parse failed
+    let src: &M2Model = pm.as_ref().unwrap_or(&m);
+    let (sviews, sprof) = hc(src);
     let conv = M2Converter::new();
     for to in ga(c, "convs") {
         let to = to.as_str().unwrap();
@@ -700,13 +760,16 @@ fn run_m2(t: &mut Vec<Value>, c: &Value, case: &str, seed: u64) {
         // both public entry points, for every (from, to): the converter object (multi-step path planning, what the CLI
         // uses) and the model's own single-step method
         for api in ["converter", "model"] {
-            let cv = if api == "converter" { guarded(|| conv.convert(&m, tv)) } else { guarded(|| m.convert(tv)) };
+            let cv = if api == "converter" { guarded(|| conv.convert(src, tv)) } else { guarded(|| src.convert(tv)) };
             let (cres, cnote) = (res_of(&cv), note_of(&cv));
             let mut e = json!({"ev":"Convert","case":case,"from":from,"to":to,"api":api,"res":cres,"note":cnote,"secs":{},"rver":0,
+                               "sviews":sviews,"sprof":sprof,"rviews":-1,"rprof":-1,"pviews":-1,"pprof":-1,
                                "wres":"skipped","wlen":0,"wtok":"","pres":"skipped","pver":0,"psecs":{}});
             if let Some(cm) = take(cv) {
                 e["secs"] = model_tokens(&cm);
                 e["rver"] = json!(cm.header.version);
+                e["rviews"] = json!(hc(&cm).0);
+                e["rprof"] = json!(hc(&cm).1);
                 let cw = write_model(&cm);
                 e["wres"] = json!(res_of(&cw));
                 if let Some(cb) = take(cw) {
@@ -716,6 +779,8 @@ fn run_m2(t: &mut Vec<Value>, c: &Value, case: &str, seed: u64) {
                     e["pres"] = json!(res_of(&cp));
                     if let Some(cpm) = take(cp) {
                         e["pver"] = json!(cpm.header.version);
+                        e["pviews"] = json!(hc(&cpm).0);
+                        e["pprof"] = json!(hc(&cpm).1);
                         e["psecs"] = model_tokens(&cpm);
                     }
                 }
@@ -809,6 +874,7 @@ fn conv_event<T>(case: &str, from: &str, to: &str, api: &str, cv: Outcome<std::r
                  pr: impl Fn(&[u8]) -> std::result::Result<T, wow_m2::M2Error>) -> Value {
     let (cres, cnote) = (res_of(&cv), note_of(&cv));
     let mut e = json!({"ev":"Convert","case":case,"from":from,"to":to,"api":api,"res":cres,"note":cnote,"secs":{},"rver":0,
+                       "sviews":-1,"sprof":-1,"rviews":-1,"rprof":-1,"pviews":-1,"pprof":-1,
                        "wres":"skipped","wlen":0,"wtok":"","pres":"skipped","pver":0,"psecs":{}});
     if let Some(cm) = take(cv) {
         e["secs"] = toks(&cm);
@@ -845,11 +911,13 @@ fn anim_tokens(a: &AnimFile) -> Value {
 fn build_anim(c: &Value, seed: u64, label: &str) -> AnimFile {
     let mut v = Vals { rng: Rng::derive(seed, label), extreme: false, n: 0 };
     let (ns, nb, data) = (gi(c, "nsec") as usize, gi(c, "nbones") as usize, gb(c, "data"));
+    // presence pattern over the bone table: bone i carries key frames iff bit i of `mask`
+    let mask = c.get("mask").and_then(|x| x.as_i64()).unwrap_or(if data { 5 } else { 0 });
     let mut sections = Vec::new();
     for si in 0..ns {
         let mut bones = Vec::new();
         for bi in 0..nb {
-            let has = data && bi != 1; // the middle bone of three stays without key frames
+            let has = (mask >> bi) & 1 == 1;
             bones.push(AnimBoneAnimation {
                 bone_id: if has { 1 + v.u() % 200 } else { 0 },
                 translation: if has { Some(AnimTranslation { timestamps: vec![v.u() % 100, 100 + v.u() % 100], translations: vec![v.v3(), v.v3()] }) } else { None },
@@ -940,7 +1008,8 @@ fn main() {
             "ver":c.get("ver").cloned().unwrap_or(json!(if fmt == "anim_modern" { "Legion" } else { "MoP" })),"vn":c.get("vn").cloned().unwrap_or(json!(0)),
             "kf":c.get("kf").cloned().unwrap_or(json!(false)),"floats":c.get("floats").cloned().unwrap_or(json!("normal")),
             "namelen":c.get("namelen").cloned().unwrap_or(json!(-1)),"texlen":c.get("texlen").cloned().unwrap_or(json!(-1)),
-            "pop":pop,"shape":c.get("card").cloned().unwrap_or(json!({"nsec":c.get("nsec"),"nbones":c.get("nbones"),"data":c.get("data")}))})];
+            "alias":c.get("alias").cloned().unwrap_or(json!(0)),"kfmask":c.get("kfmask").cloned().unwrap_or(json!(-1)),"mask":c.get("mask").cloned().unwrap_or(json!(-1)),
+            "pop":pop,"shape":c.get("card").cloned().unwrap_or(json!({"nsec":c.get("nsec"),"nbones":c.get("nbones"),"data":c.get("data"),"mask":c.get("mask")}))})];
         match kind {
             "m2" => run_m2(&mut evs, c, &case, seed),
             "skin" => run_skin(&mut evs, c, &case, seed),
